@@ -68,6 +68,9 @@ def be_width(callee):
     return None
 
 
+ITER_NEXT = "core::iter::traits::iterator::Iterator::next"
+
+
 def array_place(t):
     """(array term, lo, hi) when t is `A[i]` / `A[a..b]` (literal bounds) of a local `[v; N]` array A"""
     if not (isinstance(t, tuple) and t[0] == "index" and isinstance(t[1], tuple) and t[1][0] == "repeat"):
@@ -139,6 +142,79 @@ class Chain2:
         except S.TooManyPaths:
             self.paths = []
             self.error = "too many control-flow paths to enumerate"
+        self.extend_loops = {}
+        self.find_extend_loops()
+
+    # ---- `for x in IT { buf.push(x)<checked> }`
+    def aux(self, e):
+        """an effect that is bookkeeping of this analysis, not an operation on the buffer: a write into a local array, a loop cursor"""
+        if e.args and array_place(e.args[0]) is not None and not self.touches(e.args):
+            return True
+        return e.tcallee == ITER_NEXT and not self.touches(e.args)
+
+    def iter_segments(self, it, e):
+        """the items an iterator term yields, as segments: chain(a, b) = a then b; once(v) = the byte v; a literal array = its bytes;
+        otherwise the term is a collection that is iterated in order (`.iter().copied()`, `.into_iter()` are views): one chunk"""
+        it = norm(it)
+        while it[0] == "call" and len(it[2]) == 1 and method_of(it[1]) in ("into_iter", "iter", "copied", "cloned", "by_ref"):
+            it = norm(it[2][0])
+        if it[0] == "call" and it[1].endswith("Iterator::chain") and len(it[2]) == 2:
+            a, b = self.iter_segments(it[2][0], e), self.iter_segments(it[2][1], e)
+            return None if a is None or b is None else a + b
+        if it[0] == "call" and it[1] in ("core::iter::sources::once::once",) and len(it[2]) == 1:
+            return [Seg("byte", it[2][0], e)]
+        if it[0] == "array":
+            return [Seg("byte", x, e) for x in it[1]]
+        if it[0] == "call" and "Iterator::" in it[1]:
+            return None       # an adaptor that may drop, repeat or reorder items
+        if it[0] in ("param", "field", "proj", "local"):
+            return [Seg("chunk", it, e)]
+        return None
+
+    def find_extend_loops(self):
+        """loops whose every iteration pushes the item it drew, and nothing else, and which end only when the iterator is exhausted:
+        {cursor term -> the push effect of the iteration}.  The one-iteration artefact paths of such a loop are dropped (the exit
+        path stands for "all items were appended"); the push of a kept (failing) iteration no longer counts as "inside a loop"."""
+        cursors = {}
+        for p in self.paths:
+            for e in p.effects:
+                if e.tcallee == ITER_NEXT and e.loops:
+                    cursors.setdefault(e.term, []).append((p, e))
+        for N, occ in cursors.items():
+            if self.iter_segments(N[2][0], occ[0][1]) is None:
+                continue
+            ok = True
+            pushes = {}
+            for p, e in occ:
+                k = self.sym.lookup(p, N)
+                inloop = [x for x in p.effects if x.loops and x is not e and x.tcallee != ITER_NEXT]
+                if k == S.SOME:
+                    item = self.sym.proj(N, S.SOME, 0)
+                    if not (len(inloop) == 1 and method_of(inloop[0].callee) == "push" and len(inloop[0].args) == 2 and self.is_buf(inloop[0].args[0]) and inloop[0].args[1] == item):
+                        ok = False
+                    else:
+                        pushes[id(p)] = inloop[0]
+                    if p.ret_loop_depth > 0 and self.fate(p, inloop[0]) not in ("err", "returned") if len(inloop) == 1 else False:
+                        ok = False      # leaves the loop early although the push went through
+                elif k == S.NONE:
+                    if inloop:
+                        ok = False
+                else:
+                    ok = False
+            if not ok or not pushes:
+                continue
+            self.extend_loops[N] = pushes
+            keep = []
+            for p in self.paths:
+                if id(p) in pushes and self.fate(p, pushes[id(p)]) == "ok" and not (p.done and p.done[0] == "panic"):
+                    continue        # one more item appended, then "the rest of the function": subsumed by the exit path
+                keep.append(p)
+            self.paths = keep
+            for p in self.paths:
+                if any(e.term == N for e in p.effects):
+                    p.loops = max(0, p.loops - 1)
+                if id(p) in pushes:
+                    pushes[id(p)].loops = 0
 
     # ---- buffer identity
     def is_buf(self, t):
@@ -156,6 +232,8 @@ class Chain2:
         return False
 
     def is_effect(self, callee, args, node, st):
+        if isinstance(node, dict) and node.get("callee") == ITER_NEXT and st.loop_depth > 0:
+            return True       # the cursor of a loop: needed to recognise `for x in IT { buf.push(x) }` as "append all of IT"
         if args and array_place(args[0]) is not None and (callee == "<assign>" or (callee or "").endswith("::copy_from_slice")):
             return True       # a write into a local `[v; N]` array that may later be appended as a whole
         if not self.touches(args):
@@ -234,10 +312,17 @@ class Chain2:
     def segments(self, p):
         raw = []
         arrays = {}
+        skip = {id(pp[id(p)]) for pp in self.extend_loops.values() if id(p) in pp}
         for e in p.effects:
             pl = array_place(e.args[0]) if e.args else None
             if pl is not None and not self.touches(e.args):
                 arrays.setdefault(pl[0], []).append(e)
+                continue
+            if e.tcallee == ITER_NEXT and not self.touches(e.args):
+                if e.term in self.extend_loops:
+                    raw.extend(self.iter_segments(e.term[2][0], e))      # all items of the iterator, in order
+                continue
+            if id(e) in skip:
                 continue
             m = method_of(e.callee)
             if e.kind == "call" and e.args and self.is_buf(e.args[0]) and m == "push" and len(e.args) == 2:
@@ -298,7 +383,7 @@ class Chain2:
 
     # ---- fates
     def fate(self, p, e):
-        if e.term is None:
+        if e.term is None or self.aux(e):
             return "n/a"
         k = self.sym.lookup(p, e.term)
         if k in (S.OK, S.SOME):
@@ -391,8 +476,8 @@ class Chain2:
             longest = max(longest, len(segs))
             failed = None
             for i, e in enumerate(p.effects):
-                if e.args and array_place(e.args[0]) is not None and not self.touches(e.args):
-                    continue      # a write into a local array: accounted for where the array is appended (segments)
+                if self.aux(e):
+                    continue      # a write into a local array / a loop cursor: accounted for in segments()
                 sites[e.node.get("sp")] = e
                 m = method_of(e.callee)
                 d = S.show(e.args[1])[:70] if len(e.args) > 1 else m
